@@ -1,7 +1,7 @@
 (* C17 correspondence, system level: what a running frps did with the first bytes of fresh
    connections (driver firstbytes) and with the byte stream of an established control channel
    (driver readloop), against Model/FrameSys.v. *)
-From FRP Require Export Corr.C17 Model.FrameSys.
+From FRP Require Export Corr.C17 Model.FrameSys Model.FrameSysLogin.
 Open Scope Z_scope.
 
 Definition sys_type_byte (name : string) : option byte :=
@@ -19,6 +19,11 @@ Inductive sys_case :=
               4 NewVisitorConnResp error | 5 NewVisitorConnResp ok | 6 other bytes. *)
 | CFirst (tls : Z) (input : bytes) (eof : bool) (window : Z) (json : Z) (orc : Z) (orc_rid : bytes)
          (before : fs_state) (obs_closed obs_reply : Z) (after : fs_state) (a_ping a_tunnel : bool)
+(* An authenticated Login (valid key for its timestamp) with the given pool_count as first message of a frps
+   running in a CHILD process with transport.maxPoolCount = max_pool; the handler oracle is COMPUTED from
+   the translated NewControl clamp (fs_login_oracle).  The session table of the child is not observable;
+   alive = the child process still runs afterwards, a_ping / a_tunnel = the bystander session still works. *)
+| CLoginX (input : bytes) (pool_count max_pool : Z) (rid : bytes) (obs_closed obs_reply : Z) (alive a_ping a_tunnel : bool)
 (* mode: 0 = the whole stream written at once, 1 = the driver waits for the reply to every message
    that has one before it writes the next.  bad_bodies: the bodies encoding/json rejects, null_bodies: those it reads as JSON null (oracle).
    obs_replies: type bytes of the messages received on the control channel, in order. *)
@@ -50,6 +55,7 @@ Definition close_code_ok (k : fs_close) (window obs : Z) : bool :=
   | CloseNow => obs =? 1
   | CloseAtTimeout => if window =? 2 then obs =? 2 else obs =? 0
   | CloseTlsFail => if window =? 2 then (obs =? 1) || (obs =? 2) else true
+  | ServerDown => obs =? 1      (* the process is gone: every connection is reset *)
   end.
 
 Definition reply_code_ok (r : fs_reply) (obs : Z) : bool :=
@@ -126,6 +132,23 @@ Definition check_sys (c : sys_case) : Z :=
           else if negb a_tunnel then 26
           else 0
       end
+  | CLoginX input pool maxp rid obs_closed obs_reply alive a_ping a_tunnel =>
+      let ev := {| fe_conn := 1; fe_bytes := input; fe_eof := false; fe_inner := None; fe_json := JMsg;
+                   fe_handler := fs_login_oracle pool maxp rid |} in
+      (* property monitor on the observed trace first: the server must survive, whatever the model says *)
+      if negb alive then 27
+      else if negb a_ping then 25
+      else if negb a_tunnel then 26
+      else match model_first ev [] with
+           | None => 20
+           | Some None => 21
+           | Some (Some (_, out)) =>
+               match fo_act out, fo_close out with
+               | ActLogin, KeepOpen =>
+                   if negb (obs_closed =? 0) then 22 else if negb (reply_code_ok (fo_reply out) obs_reply) then 23 else 0
+               | _, _ => 28   (* the generated frame was not dispatched as a Login that is kept *)
+               end
+           end
   | CLoop mode stream eof bad nulls rid before obs_replies obs_closed after a_ping a_tunnel =>
       match model_loop stream bad nulls with
       | None => 30
@@ -164,6 +187,8 @@ Definition first_act (c : sys_case) : option first_action :=
       end
   | _ => None
   end.
+Definition is_loginx c := match c with CLoginX _ _ _ _ _ _ _ _ _ => true | _ => false end.
+Definition is_loginx_below_slack c := match c with CLoginX _ p _ _ _ _ _ _ _ => p <? -10 | _ => false end.
 Definition is_close_now c := match first_close_kind c with Some CloseNow => true | _ => false end.
 Definition is_close_timeout c := match first_close_kind c with Some CloseAtTimeout => true | _ => false end.
 Definition is_keep_open c := match first_close_kind c with Some KeepOpen => true | _ => false end.
